@@ -413,6 +413,9 @@ def run(rep, tier):
         rep.call(_lw.cursor_advance, rep, prog, "C01.cursor-advance", {"x86": 16, "x86-rayon": 16, "wasm": 4}.get(cfg, 0))
         from ..engines import validators
         rep.call(validators.crop_passthrough, rep, prog, "C01.crop-passthrough")
+        if cfg.startswith("x86"):
+            from ..engines import lanepair
+            rep.call(lanepair.pairing, rep, prog, "C01.lane-pairing")
         # "rounding is to nearest (single-pass results are within half a unit)": the rounding terms
         # that reach every final shift total exactly half an output unit
         from ..engines import roundbudget, simd_rules
